@@ -149,6 +149,7 @@ type vfSM struct {
 	waiters    map[int]*vfWaiter
 	nextWid    int
 	blockedDel *vfBlockedDel   // a Del call blocked on the full write buffer (its goroutine is parked)
+	delRemoved []uint64        // values removed from the map by a Del or its tombstone since the last drained check
 	replaying  bool            // a read of the mid-sweep program is being replayed on the model
 	calls      int             // client calls so far
 	t0         time.Time       // creation time of the cache (first tick at t0+period)
